@@ -100,6 +100,7 @@ pub fn worker_main(prop: Prop, tier: Tier, seed: u64, start: u64, stride: u64, e
         let r = runner::run_one(prop, tier, tape, &mut stats, &env);
         crate::tape::fnv(&mut obs_all, &r.obs.to_le_bytes());
         stats.bump("runs");
+        stats.bump(if cfg!(debug_assertions) { "runs.profile.trap" } else { "runs.profile.shipped" });
         stats.add("tape.choices", r.tape.len() as u64);
         match &r.result {
             RunResult::Ok => {}
@@ -195,6 +196,8 @@ pub struct Found {
     pub tape: Vec<u32>,
     pub marks: Vec<u32>,
     pub property: String,
+    /// found by a worker of the shipped-profile leg
+    pub shipped: bool,
 }
 
 struct WorkerOut {
@@ -219,11 +222,28 @@ fn parse_found(j: &Value) -> Option<Found> {
         tape: j["tape"].as_array()?.iter().map(|x| x.as_u64().unwrap_or(0) as u32).collect(),
         marks: j["marks"].as_array().map(|a| a.iter().map(|x| x.as_u64().unwrap_or(0) as u32).collect()).unwrap_or_default(),
         property: v["property"].as_str().unwrap_or("").to_string(),
+        shipped: false,
     })
 }
 
+/// The second build of the simulator: the repository's own release settings (no debug
+/// assertions, no overflow checks), in `target/shipped`.  One worker slot in eight runs it,
+/// so that code which behaves differently without debug assertions - a needed side effect
+/// inside `debug_assert!`, arithmetic that only wraps - is seen too.
+pub fn exe_for(shipped: bool) -> PathBuf {
+    let exe = std::env::current_exe().unwrap_or_default();
+    let name = exe.file_name().map(|n| n.to_os_string()).unwrap_or_default();
+    let Some(target) = exe.parent().and_then(|d| d.parent()) else { return exe };
+    target.join(if shipped { "shipped" } else { "release" }).join(name)
+}
+
+/// which profile runs a given run index (slot = index modulo the number of workers)
+pub fn shipped_slot(start: u64, stride: u64) -> bool {
+    stride >= 8 && (start % stride) % 8 == 7 && std::env::var("VERIF_NO_SHIPPED_LEG").is_err()
+}
+
 fn spawn_worker(prop: Prop, tier: Tier, seed: u64, start: u64, stride: u64, end: u64, distinct: &Path) -> std::io::Result<std::process::Child> {
-    let exe = std::env::current_exe()?;
+    let exe = exe_for(shipped_slot(start, stride));
     Command::new(exe)
         .arg("worker")
         .arg(prop.id())
@@ -310,11 +330,11 @@ fn collect(mut child: std::process::Child) -> WorkerOut {
 }
 
 /// run a batch of tapes in one child; returns one result per tape (None = the child died on it)
-pub fn exec_batch(prop: Prop, tier: Tier, tapes: &[Vec<u32>]) -> Vec<Option<Value>> {
+pub fn exec_batch(prop: Prop, tier: Tier, tapes: &[Vec<u32>], shipped: bool) -> Vec<Option<Value>> {
     let mut results: Vec<Option<Value>> = Vec::new();
     let mut idx = 0usize;
     while idx < tapes.len() {
-        let exe = std::env::current_exe().unwrap();
+        let exe = exe_for(shipped);
         let mut child = match Command::new(exe)
             .arg("exec")
             .arg(prop.id())
@@ -423,8 +443,8 @@ fn abort_violation(claim: Prop, p: &Value) -> Violation {
 }
 
 /// does this tape fail with the given signature?  returns the consumed tape and marks if so
-fn fails_same(prop: Prop, tier: Tier, tapes: &[Vec<u32>], signature: &str) -> Vec<Option<(Vec<u32>, Vec<u32>)>> {
-    exec_batch(prop, tier, tapes)
+fn fails_same(prop: Prop, tier: Tier, tapes: &[Vec<u32>], signature: &str, shipped: bool) -> Vec<Option<(Vec<u32>, Vec<u32>)>> {
+    exec_batch(prop, tier, tapes, shipped)
         .into_iter()
         .zip(tapes.iter())
         .map(|(r, t)| {
@@ -461,7 +481,7 @@ pub fn minimise(prop: Prop, tier: Tier, f: &Found, budget: usize) -> (Vec<u32>, 
     let over = |used: usize| used >= budget || t0.elapsed().as_secs() > 60;
 
     // confirm reproducibility first
-    let r = fails_same(prop, tier, &[best.clone()], sig);
+    let r = fails_same(prop, tier, &[best.clone()], sig, f.shipped);
     used += 1;
     match r.into_iter().next().flatten() {
         Some((t, m)) => {
@@ -486,7 +506,7 @@ pub fn minimise(prop: Prop, tier: Tier, f: &Found, budget: usize) -> (Vec<u32>, 
             let mut cand = best.clone();
             cand.drain(a..b.min(cand.len()));
             used += 1;
-            if let Some((t, m)) = fails_same(prop, tier, &[cand], sig).into_iter().next().flatten() {
+            if let Some((t, m)) = fails_same(prop, tier, &[cand], sig, f.shipped).into_iter().next().flatten() {
                 best = trim_zeros(t);
                 marks = m;
                 progress = true;
@@ -520,7 +540,7 @@ pub fn minimise(prop: Prop, tier: Tier, f: &Found, budget: usize) -> (Vec<u32>, 
             break;
         }
         let take = cands.len().min(budget.saturating_sub(used)).max(1);
-        let res = fails_same(prop, tier, &cands[..take], sig);
+        let res = fails_same(prop, tier, &cands[..take], sig, f.shipped);
         used += take;
         for r in res.into_iter().flatten() {
             let (t, _m) = r;
@@ -539,7 +559,7 @@ pub fn minimise(prop: Prop, tier: Tier, f: &Found, budget: usize) -> (Vec<u32>, 
         let mut c = best.clone();
         c.remove(i);
         used += 1;
-        if let Some((t, _)) = fails_same(prop, tier, &[c], sig).into_iter().next().flatten() {
+        if let Some((t, _)) = fails_same(prop, tier, &[c], sig, f.shipped).into_iter().next().flatten() {
             best = trim_zeros(t);
             if i > best.len() {
                 i = best.len();
@@ -589,6 +609,7 @@ pub fn write_replay(prop: Prop, tier: Tier, seed: u64, f: &Found, tape: &[u32]) 
         "tier": if tier == Tier::Quick { "quick" } else { "thorough" },
         "seed": seed,
         "run_index": f.run,
+        "profile": if f.shipped { "shipped" } else { "trap" },
         "tape": tape,
         "violation": {"class": f.class, "features": f.features, "signature": f.signature, "detail": f.detail},
         "sim_version": SIM_VERSION,
@@ -613,7 +634,8 @@ pub fn replay_main(path: &str) -> i32 {
     let tier = if j["tier"].as_str() == Some("thorough") { Tier::Thorough } else { Tier::Quick };
     let tape: Vec<u32> = j["tape"].as_array().map(|a| a.iter().map(|x| x.as_u64().unwrap_or(0) as u32).collect()).unwrap_or_default();
     let want = j["violation"]["signature"].as_str().unwrap_or("").to_string();
-    let r = exec_batch(prop, tier, &[tape]);
+    let shipped = j["profile"].as_str() == Some("shipped");
+    let r = exec_batch(prop, tier, &[tape], shipped);
     match r.into_iter().next().flatten() {
         Some(r) if r["kind"].as_str() == Some("violation") => {
             let sig = r["v"]["signature"].as_str().unwrap_or("");
@@ -680,7 +702,7 @@ pub fn check_main(prop: Prop, tier: Tier, seed: u64) -> i32 {
     let mut known_sigs: Vec<(String, String)> = Vec::new();
     for k in known.iter().filter(|k| k.property == prop.id() && k.status == "known") {
         let ktier = if k.tier == "thorough" { Tier::Thorough } else { Tier::Quick };
-        let r = exec_batch(prop, ktier, &[k.tape.clone()]);
+        let r = exec_batch(prop, ktier, &[k.tape.clone()], false);
         let still = matches!(r.first().and_then(|x| x.as_ref()), Some(r) if r["kind"].as_str() == Some("violation") && r["v"]["signature"].as_str() == Some(k.signature.as_str()));
         if still {
             let line = format!("KNOWN-FINDING: property={} {} [{}]", prop.id(), k.what, k.id);
@@ -715,11 +737,14 @@ pub fn check_main(prop: Prop, tier: Tier, seed: u64) -> i32 {
             .map(|(start, stride, df, c)| std::thread::spawn(move || (start, stride, df, collect(c))))
             .collect();
         for h in handles {
-            let Ok((_start, stride, df, w)) = h.join() else {
+            let Ok((start, stride, df, mut w)) = h.join() else {
                 harness.push("collector thread panicked".into());
                 continue;
             };
-            violations.extend(w.violations);
+            for v in w.violations.iter_mut() {
+                v.shipped = shipped_slot(start, stride);
+            }
+            violations.extend(std::mem::take(&mut w.violations));
             disputes.extend(w.disputes);
             harness.extend(w.harness);
             if let Ok(bytes) = std::fs::read(&df) {
@@ -762,8 +787,8 @@ pub fn check_main(prop: Prop, tier: Tier, seed: u64) -> i32 {
                             // died without such a record (abort inside the plugin) is re-run in record
                             // mode with every decision flushed to a file
                             let from_rec: Vec<u32> = w.panic_rec.as_ref().and_then(|p| p["tape"].as_array()).map(|a| a.iter().map(|x| x.as_u64().unwrap_or(0) as u32).collect()).unwrap_or_default();
-                            let tape = if !from_rec.is_empty() { from_rec } else { recover_tape(prop, tier, seed, run, &scratch) };
-                            violations.push(Found { run, class: v.class.clone(), features: v.features.clone(), signature: v.signature(), detail: v.detail.clone(), tape, marks: vec![], property: prop.id().to_string() });
+                            let tape = if !from_rec.is_empty() { from_rec } else { recover_tape(prop, tier, seed, run, &scratch, shipped_slot(run, stride)) };
+                            violations.push(Found { run, class: v.class.clone(), features: v.features.clone(), signature: v.signature(), detail: v.detail.clone(), tape, marks: vec![], property: prop.id().to_string(), shipped: shipped_slot(run, stride) });
                         } else {
                             stats.bump("runs.truncated-by-foreign-violation");
                             stats.bump(&format!("foreign.{}.{}", v.prop.id(), v.class));
@@ -834,7 +859,9 @@ pub fn check_main(prop: Prop, tier: Tier, seed: u64) -> i32 {
         // a hanging run costs the watchdog's whole time limit per execution: report it unminimised
         let (tape, used) = if sig.contains(".hang") { (f.tape.clone(), 0) } else { minimise(prop, tier, f, budget) };
         let path = write_replay(prop, tier, seed, f, &tape);
-        println!("violation {} ({} runs, first run {}; tape {} -> {} choices after {} candidate executions)", sig, group.len(), f.run, f.tape.len(), tape.len(), used);
+        let nship = group.iter().filter(|g| g.shipped).count();
+        let prof = if nship == group.len() { " [only in the shipped profile]" } else if nship == 0 && group.len() >= 8 { " [only in the trap profile]" } else { "" };
+        println!("violation {} ({} runs, first run {}; tape {} -> {} choices after {} candidate executions){prof}", sig, group.len(), f.run, f.tape.len(), tape.len(), used);
         println!("  {}", f.detail.lines().next().unwrap_or(""));
         println!("VIOLATION property={} replay={}", prop.id(), path.display());
         replay_paths.push(path.display().to_string());
@@ -883,7 +910,7 @@ pub fn check_main(prop: Prop, tier: Tier, seed: u64) -> i32 {
         },
         "assumptions": [
             "reference rules M1 (own mailbox model, perft-validated at setup) and M2 (shakmaty 0.26) are correct where they agree",
-            "workers are built with debug assertions and overflow checks so that violated preconditions trap",
+            "seven worker slots in eight are built with debug assertions and overflow checks so that violated preconditions trap; the eighth runs the same simulator built with the repository's own release settings (no debug assertions, no overflow checks), so that behaviour which differs without them is seen as well",
             "a clean batch is evidence proportional to the reach counters, not a proof"
         ],
         "wall_s": wall,
@@ -933,9 +960,9 @@ pub fn check_main(prop: Prop, tier: Tier, seed: u64) -> i32 {
 
 /// re-run one run index in a fresh process in record mode with every decision
 /// flushed to a file, to obtain the tape of a run that kills its process
-fn recover_tape(prop: Prop, tier: Tier, seed: u64, run: u64, scratch: &Path) -> Vec<u32> {
+fn recover_tape(prop: Prop, tier: Tier, seed: u64, run: u64, scratch: &Path, shipped: bool) -> Vec<u32> {
     let f = scratch.join(format!("tape-{run}.txt"));
-    let exe = std::env::current_exe().unwrap();
+    let exe = exe_for(shipped);
     let _ = Command::new(exe)
         .arg("dump")
         .arg(prop.id())
